@@ -9,6 +9,7 @@ package sarama
 
 import (
 	"fmt"
+	"strings"
 	"sync"
 	"sync/atomic"
 	"testing"
@@ -25,7 +26,18 @@ func runSyncScenario(t testing.TB, rec *vRec, sc *prodScenario) {
 		cfgv.Version = "0.11.0.0"
 	}
 	if cfgv.ReadTimeout == 0 {
-		cfgv.ReadTimeout = 250
+		// a short read timeout only where the script needs the client to time out (a request that is
+		// never answered); everywhere else it is long, so that a held request on a slow machine can
+		// never turn into an unscripted connection-level failure
+		cfgv.ReadTimeout = 8000
+		for _, p := range sc.Plans {
+			if p != nil && strings.HasPrefix(p.Conn, "silence") {
+				cfgv.ReadTimeout = 250
+			}
+		}
+		if cfgv.InitPidFault == "silence" {
+			cfgv.ReadTimeout = 250
+		}
 	}
 	if cfgv.Acks == "" {
 		cfgv.Acks = "local"
